@@ -54,13 +54,21 @@ def deletedStanza (c : Nat) : List Act → List Nat
   | .del c' fn :: r => if c' = c then fn :: deletedStanza c r else deletedStanza c r
   | _ :: r => deletedStanza c r
 
-/-- progress of a dispatch: invocation counters, what has been deleted so far, who was invoked
-    (with what the callback returned) -/
+/-- one expected invocation: which registration (allocation number and callback × user data), in
+    which phase, and what the callback returned -/
+structure Call where
+  phase : Phase
+  reg : Nat
+  key : Key
+  ret : Bool
+  deriving DecidableEq, Repr
+
+/-- progress of a dispatch: invocation counters, what has been deleted so far, who was invoked -/
 structure Acc where
   cnt : Key → Nat
   delI : List Nat := []
   delS : List Nat := []
-  out : List (Phase × Item × Bool) := []
+  out : List Call := []
 
 def eligible (neg : Bool) (s : Stanza) (a : Acc) (ph : Phase) (it : Item) : Prop :=
   (match ph with
@@ -78,13 +86,13 @@ def turn (beh : Beh) (c : Nat) (neg : Bool) (s : Stanza) (a : Acc) (x : Phase ×
     { cnt := bump a.cnt x.2.key,
       delI := a.delI ++ (match s.id with | some id => deletedId c id step.acts | none => []),
       delS := a.delS ++ deletedStanza c step.acts,
-      out := a.out ++ [(x.1, x.2, step.keep)] }
+      out := a.out ++ [{ phase := x.1, reg := x.2.uid, key := x.2.key, ret := step.keep }] }
   else a
 
 /-- the invocations of one dispatch, in order: which registration, in which phase, and what its
     callback returned -/
 def expected (beh : Beh) (c : Nat) (neg : Bool) (s : Stanza) (cnt : Key → Nat)
-    (idHandlers stanzaHandlers : List Item) : List (Phase × Item × Bool) :=
+    (idHandlers stanzaHandlers : List Item) : List Call :=
   ((candidates idHandlers stanzaHandlers).foldl (turn beh c neg s) { cnt }).out
 
 /-- a timed handler is due: at least one period since it was registered / re-armed / last fired
